@@ -25,21 +25,34 @@ def _lengths(S, M, D):
 def _one(c, bank, N, dtype, seed, variant="generic"):
     from pydrobert.speech import config, filters
 
-    S, style, pad = c["S"], c["style"], c["pad"]
+    S, pad = c["S"], c["pad"]
+    # frame_style=None is documented to resolve to centered iff the bank is zero phase; the resolved
+    # style also selects the default window
+    style = c["style"] if c["style"] is not None else ("centered" if bank.is_zero_phase else "causal")
     win = cfg.make_window(c["window"])
     if win is None:
         win = filters.GammaWindow() if style == "causal" else filters.HannWindow()
     w = win.get_impulse_response(2 * S)
+    floor = c.get("floor")
     x64 = sig.signal(seed, N) if variant == "generic" else np.zeros(N)
     x = x64.astype(dtype)
     comp = cfg.make_computer(c)
-    want, D = ref.compute_full(x.astype(np.float64), bank, S, style, pad, w, c["log"], c["power"],
-                               c["energy"], config.LOG_FLOOR_VALUE)
-    if getattr(comp, "_dft_size", D) != D:
-        raise core.HarnessError("reference DFT size %d != computer's %d for %r" % (
-            D, comp._dft_size, c))
-    r = computers.call(comp.compute_full, sig.ro(x))
-    tags = dict(bank=type(bank).__name__, style=style, dtype=str(dtype))
+    old_floor = config.LOG_FLOOR_VALUE
+    try:
+        if floor is not None:
+            # the documented package constant is changed AFTER the computer was built
+            config.LOG_FLOOR_VALUE = floor
+        want, D = ref.compute_full(x.astype(np.float64), bank, S, style, pad, w, c["log"], c["power"],
+                                   c["energy"], config.LOG_FLOOR_VALUE)
+        if getattr(comp, "_dft_size", D) != D:
+            raise core.HarnessError("reference DFT size %d != computer's %d for %r" % (
+                D, comp._dft_size, c))
+        r = computers.call(comp.compute_full, sig.ro(x))
+    finally:
+        config.LOG_FLOOR_VALUE = old_floor
+    tags = dict(bank=type(bank).__name__, style=c["style"], dtype=str(dtype))
+    if floor is not None:
+        tags["floor_changed_after_construction"] = True
     case = dict(config=c, N=N, dtype=str(dtype), signal=variant)
     if r[0] != "ok":
         return [core.violation(dict(tags, what="exception", exc=r[1]),
@@ -79,7 +92,8 @@ def _eval(pt, seed):
     probe = cfg.make_computer(dict(kind="si", bank=bankname, S=S, style=style, pad=pad, window=window))
     if not cfg.si_domain_ok(probe):
         return core.result(nontrivial=False, obs="out_of_domain", skipped=True)
-    M, tr, L, D = ref.geometry(bank, S, style, pad)
+    rstyle = style if style is not None else ("centered" if bank.is_zero_phase else "causal")
+    M, tr, L, D = ref.geometry(bank, S, rstyle, pad)
     for use_log, use_power, energy in FLAGS:
         c = dict(kind="si", bank=bankname, S=S, style=style, pad=pad, window=window,
                  log=use_log, power=use_power, energy=energy)
@@ -90,6 +104,13 @@ def _eval(pt, seed):
                 viol.extend(v)
                 if want.shape[0]:
                     nontriv += 1
+        if use_log and dtype == "float64":
+            # LOG_FLOOR_VALUE changed after construction (larger and smaller than the default)
+            for floor in (1e-2, 1e-9):
+                for variant in ("generic", "zeros"):
+                    evals += 1
+                    v, want = _one(dict(c, floor=floor), bank, M + S, dtype, seed, variant)
+                    viol.extend(v)
         if len(viol) > 40:
             break
     return core.result(viol, evals=evals, nontrivial_count=nontriv, obs=(D, M),
@@ -196,6 +217,10 @@ def subchecks(tier, seed):
                             if dt != "float64" and (w is None or not pad) and tier == "quick":
                                 continue
                             pts.append((b, S, style, pad, w, dt))
+        # frame_style=None: resolved from the bank (also selects the default window)
+        for S in (2, 3):
+            for w in ("hamming", None):
+                pts.append((b, S, None, True, w, "float64"))
     alpha = _hist_alphabet(tier)
     hist_pts = [(a, b) for a in alpha for b in alpha
                 if a is not b and (a["bank"] == b["bank"] or a["window"] == b["window"] or tier == "thorough")]
